@@ -553,7 +553,12 @@ theorem cstep_dlw (fuel : Nat) (ih : CongrM ha hb fuel) : ∀ a b which bytes, H
   intro a b which bytes h
   simp only [doLocalWrite]
   hsplit
-  · exact ih.dlf _ _ _ h
+  · apply ih.dlf
+    unfold World.discDone
+    repeat' split
+    · exact h
+    · exact h
+    · exact h.handleDisconnect
   · obtain ⟨a1, b1, r, ea, eb, h1⟩ := HSim.pair (h.ioWrite bytes)
     rw [ea, eb]
     cases r with
